@@ -160,6 +160,35 @@ def f_project_cfg := mkProject "project_cfg" "project_cfg" cfgs fun k => k0 k / 
 def f_unprojP : Family :=
   { name := "unprojP", kind := .frac, divFree := true, keys := [[0],[1]], nOut := fun _ => 3, spec := fun _ j => v j }
 
+/-! `tweakedInfinitePerspective(fovy, aspect, n, ep)`: with `range = tan(fovy/2)·n`, the symmetric frustum
+    `[−range·aspect, range·aspect] × [−range, range]` at distance `n`, and depth row `(ep − 1, (ep − 2) n)`, w-row `−1` -/
+def twRange : E := .mul (.call1 .tan (.div (v 0) two)) (v 2)
+def twSpec (j : Nat) : E :=
+  let c := j / 4; let r := j % 4
+  let right := E.mul twRange (v 1); let left := E.mul (.neg twRange) (v 1)
+  if c = 0 ∧ r = 0 then .div (.mul two (v 2)) (.sub right left)
+  else if c = 1 ∧ r = 1 then .div (.mul two (v 2)) (.sub twRange (.neg twRange))
+  else if c = 2 ∧ r = 2 then .sub (v 3) one
+  else if c = 2 ∧ r = 3 then .lit (-1) 1
+  else if c = 3 ∧ r = 2 then .mul (.sub (v 3) two) (v 2)
+  else zero
+def f_tweaked : Family :=
+  { name := "tweaked", kind := .frac, keys := [[]], nOut := fun _ => 16, spec := fun _ j => twSpec j,
+    allowed := fun _ => [.sub (.mul twRange (v 1)) (.mul (.neg twRange) (v 1)), .sub twRange (.neg twRange), two] }
+/-- `pickMatrix(center, delta, viewport)` = translate(Temp) · scale(vp.z/δx, vp.w/δy, 1) with
+    `Temp = ((vp.z − 2(c.x − vp.x))/δx, (vp.w − 2(c.y − vp.y))/δy, 0)`; the identity unless `δx > 0 ∧ δy > 0` -/
+def pkSpec (j : Nat) : E :=
+  let c := j / 4; let r := j % 4
+  if c = 0 ∧ r = 0 then .div (v 6) (v 2)
+  else if c = 1 ∧ r = 1 then .div (v 7) (v 3)
+  else if c = 3 ∧ r = 0 then .div (.sub (v 6) (.mul two (.sub (v 0) (v 4)))) (v 2)
+  else if c = 3 ∧ r = 1 then .div (.sub (v 7) (.mul two (.sub (v 1) (v 5)))) (v 3)
+  else if c = r then one else zero
+def f_pickMatrix : Family :=
+  { name := "pickMatrix", kind := .frac, treeMode := true, treeWalk := true, divFree := true, keys := [[]], nOut := fun _ => 16,
+    spec := fun _ _ => zero,
+    specT := fun _ j => .branch (.and (.lt zero (v 2)) (.lt zero (v 3))) (.leaf (pkSpec j)) (.leaf (if j / 4 = j % 4 then one else zero)) }
+
 def families : List Family :=
   [f_ortho, f_frustum, f_perspective, f_perspectiveFov, f_infinitePerspective,
    f_ortho_cfg, f_frustum_cfg, f_perspective_cfg, f_perspectiveFov_cfg, f_infinitePerspective_cfg,
@@ -167,6 +196,6 @@ def families : List Family :=
    f_frustumLH_cfg, f_frustumRH_cfg, f_frustumNO_cfg, f_frustumZO_cfg,
    f_perspectiveLH_cfg, f_perspectiveRH_cfg, f_perspectiveNO_cfg, f_perspectiveZO_cfg,
    f_perspectiveFovLH_cfg, f_perspectiveFovRH_cfg, f_perspectiveFovNO_cfg, f_perspectiveFovZO_cfg,
-   f_ortho2d, f_project, f_project_cfg, f_unprojP]
+   f_ortho2d, f_project, f_project_cfg, f_unprojP, f_tweaked, f_pickMatrix]
 
 end Glm.Spec.C08
